@@ -773,12 +773,12 @@ def run(tier="quick", seed=0):
     logger.setLevel(logging.ERROR)      # silences the "INFO tag missing in header" warning printed once per file
     try:
         with TmpDir() as tmp:
-            for text, order in type_sequence_cases():
-                check_type_sequence(col, tmp, text, order)
             for fmt, zone, text, modes, focus in all_cases(tier):
                 check_text(col, tmp, fmt, text, zone, modes, focus)
                 if col.out_of_time():
                     break
+            for text, order in type_sequence_cases():      # 10 cases, run even when the budget cut the loop above
+                check_type_sequence(col, tmp, text, order)
     finally:
         logger.setLevel(level)
     return col.result()
